@@ -805,6 +805,17 @@ macro_rules! float_sparse_harness {
 //@ replay: playback
 float_sparse_harness!(c05_h5_arith_sparse_float32, f32, u32, Float32, FloatType::Float32, 8, 23);
 
+//@ id: c05_h5_arith_sparse_float64
+//@ property: C05
+//@ tier: quick
+//@ encodes: BuiltinRuntime::invoke (dispatch), impls::float_arithmetic, float_arithmetic_result! (Add, Sub, Mul)
+//@ sym: two sparse binary64 operands (sign, one of 8 exponent fields, 8 symbolic mantissa bits at the top or bottom), op in {Add,Sub,Mul}
+//@ oracle: the Rust operator on f64; bits equal unless NaN
+//@ bounds: 2 x 13 symbolic bits; unwind 3
+//@ stubs: as c05_h3_arith_int8
+//@ replay: playback
+float_sparse_harness!(c05_h5_arith_sparse_float64, f64, u64, Float64, FloatType::Float64, 11, 52);
+
 //@ id: c05_h3_arith_full_int16
 //@ property: C05
 //@ tier: thorough
